@@ -18,10 +18,23 @@ def _has_strings(fs):
     return "String" in txt
 
 
-def prove(assumptions, goal, timeout_ms=None, want_model=True, second_opinion=True):
+def prove(assumptions, goal, timeout_ms=None, want_model=True, second_opinion=True, retries=True):
     """Return dict(status=discharged|refuted|undecided, backend, time_s, model, reason)."""
     t0 = time.time()
     timeout_ms = timeout_ms or Z3_TIMEOUT_MS
+    # fast path: value propagation + equation solving + polynomial normal form often closes (in)equational VCs
+    try:
+        g = z3.Goal()
+        for a in assumptions:
+            g.add(a)
+        g.add(z3.Not(goal))
+        tac = z3.TryFor(z3.Then(z3.Tactic("simplify"), z3.Tactic("propagate-values"), z3.Tactic("solve-eqs"),
+                                z3.With(z3.Tactic("simplify"), som=True)), 5000)
+        res = tac(g)
+        if len(res) == 1 and len(res[0]) == 1 and z3.is_false(res[0][0]):
+            return dict(status="discharged", backend="z3-tactics(simplify,propagate-values,solve-eqs,som)", time_s=time.time() - t0)
+    except z3.Z3Exception:
+        pass
     s = z3.Solver()
     s.set("timeout", timeout_ms)
     for a in assumptions:
@@ -36,7 +49,7 @@ def prove(assumptions, goal, timeout_ms=None, want_model=True, second_opinion=Tr
         return dict(status="refuted", backend="z3", time_s=dt, model=m, model_text=_model_text(m))
     reason = s.reason_unknown()
     # retry with other seeds / the nlsat tactic: unknown answers of z3 on small nonlinear VCs are often unstable
-    for attempt, (tac, seed) in enumerate([(None, 7), ("qfnra-nlsat", 0), (None, 42)]):
+    for attempt, (tac, seed) in enumerate([(None, 7), ("qfnra-nlsat", 0), (None, 42)] if retries else []):
         try:
             if tac is None:
                 s2 = z3.Solver()
